@@ -12,7 +12,8 @@ CONSTANTS Scheme <- WScheme
           NumCodes <- WNumCodes
           CodeSize <- WCodeSize
           Batches = {0, 1}
+          MaxFetches = 2
           MaxCmds = 40
-INVARIANTS OnlyTargetRequested OnlyTargetWritten DBClosed BatchClosed Complete DepsExact SizeExact
+INVARIANTS OnlyTargetRequested OnlyTargetWritten DBClosed BatchClosed Complete DepsExact SizeExact FetchBound FetchesExact SlotsReleased
 VIEW View
 CHECK_DEADLOCK FALSE
